@@ -20,6 +20,9 @@ def budget(tier):
 def gen(rng, index, tier):
     fam = rng.choice(["complete", "dup", "near", "uniform", "sparse", "complete"])
     raw, meta = lib.gen_dataset(rng, nmax=6 if tier == "quick" else 9, mmax=5, family=fam, big=0.03, big_nmax=130)
+    if tier == "thorough" and rng.random() < 0.0002:
+        # a handful of instances of several hundred elements (thresholds such as 256, 512, 1000 in a "fast path")
+        raw, meta = lib.gen_dataset(rng, n_exact=rng.choice([260, 300]), mmax=6)
     if rng.random() < 0.6:
         sch = common.family_scheme(rng, rng.choice(["unifying", "unifying", "near", "unifying_half", "pseudo"]))
     else:
